@@ -81,4 +81,20 @@ def dotDemo : FS :=
 theorem dotDemo_reachable (b : Backend) : (run (Cfg.impl b) FS.empty dotDemoOps).1 = dotDemo := by
   cases b <;> decide
 
+/-! relative targets behind a link: `l → /d`, and in `d` a chain `r → rx → rxx → … → f` of `k` links with
+relative targets.  Looking `l/r` up, Impl joins each target to the traversed prefix `l` and follows `l`
+again for every link of the chain (2k traversals), POSIX follows k + 1. -/
+
+def rname (i : Nat) : Name := 'r' :: List.replicate i 'x'
+
+def relChain (k : Nat) : FS :=
+  { nodes :=
+      [{ rootInode with children := [("d".toList, 1), ("l".toList, 2)] },
+       { dir := true, mode := modeDir ||| 0o755,
+         children := (List.range k).map (fun i => (rname i, 3 + i)) ++ [("f".toList, 3 + k)] },
+       { mode := modeSymlink + 0o777, target := "/d".toList }] ++
+      (List.range k).map (fun i =>
+        { mode := modeSymlink + 0o777, target := if i + 1 < k then rname (i + 1) else "f".toList }) ++
+      [{ mode := 0o644 }] }
+
 end Apko.FS
